@@ -264,6 +264,9 @@ def cubic_spline(
             )
         )
 
+    # Rounding in the polynomial (or root) evaluation must not push outputs out of the box.
+    outputs = torch.clamp(outputs, 0, 1)
+
     if inverse:
         outputs = outputs * (right - left) + left
         logabsdet = logabsdet + math.log(right - left) - math.log(top - bottom)
